@@ -6,6 +6,9 @@ PS1 == << <<O("addlast", 1, 0), O("popfirst", 0, 0)>>, <<O("addlast", 2, 0)>>, <
 PS2 == << <<O("addlast", 1, 0), O("getat", 0, 0)>>, <<O("addlast", 2, 0)>>, <<O("popfirst", 0, 0)>> >>
 PS3 == << <<O("addfirst", 1, 0), O("poplast", 0, 0)>>, <<O("addlast", 2, 0), O("clear", 0, 0)>> >>
 PS4 == << <<O("addlast", 1, 0)>>, <<O("addlast", 2, 0)>>, <<O("addlast", 3, 0)>>, <<O("toarray", 0, 0)>> >>
+\* queue (push at the back = addlast, pop at the front) and stack (push and pop at the front)
+PQ1 == << <<O("addlast", 1, 0), O("popfirst", 0, 0)>>, <<O("addlast", 2, 0), O("getat", 0, 0)>>, <<O("popfirst", 0, 0)>> >>
+PK1 == << <<O("addfirst", 1, 0), O("popfirst", 0, 0)>>, <<O("addfirst", 2, 0), O("getat", 0, 0)>>, <<O("clear", 0, 0)>> >>
 \* maps (hash table, tree table)
 PM1 == << <<O("put", 1, 1), O("get", 2, 0)>>, <<O("put", 2, 2), O("remove", 1, 0)>>, <<O("walk", 0, 0)>> >>
 PM2 == << <<O("put", 1, 1), O("put", 1, 2)>>, <<O("get", 1, 0), O("remove", 1, 0)>>, <<O("clear", 0, 0)>> >>
